@@ -104,3 +104,22 @@ for ns in list(range(1, 33)) + [63, 64, 65, 127, 128, 129, 255, 256, 257, 451, 5
 for kind, kname in ((1, 'free_memory_list'), (2, 'ordered_free_memory_list')):
     add('c18-%s-minblock' % kname, ['C18'], 'freelist', 'c18_minblock.c', config='release', defines=['KIND=%d' % kind, 'HEAP_SIZE=64'],
         unwind=4, timeout=300, solver='cvc5', desc='%s: min_block_size/usable_size/node_size arithmetic (cvc5, integer encoding of bit-vectors)' % kname, bounds='all node sizes 1..512, all n 1..2000 (symbolic)')
+
+# ---------------------------------------------------------------- iteration_allocator<N>
+IT_OPS = {1: 'ctor', 2: 'allocate', 3: 'try_allocate', 4: 'next_iteration', 5: 'dtor', 6: 'move_ctor', 7: 'move_assign', 8: 'try_deallocate'}
+IT_PROPS = {1: ['C07', 'C01', 'C03', 'C05'], 2: ['C07', 'C01', 'C02', 'C03', 'C17', 'C18'], 3: ['C07', 'C01', 'C02', 'C03', 'C18'],
+            4: ['C07', 'C01'], 5: ['C05'], 6: ['C12', 'C05'], 7: ['C12', 'C05'], 8: ['C08']}
+def it_jobs(n, op, config, tier, bmax=48, smax=24, timeout=300):
+    add('iter-%s-N%d-%s' % (IT_OPS[op], n, config), IT_PROPS[op], 'stack', 'iter_step.c', config=config,
+        defines=['NIT=%d' % n, 'OP=%d' % op, 'BMAX=%d' % bmax, 'SMAX=%d' % smax, 'HEAP_SIZE=%d' % (2 * 96 + 64 + (bmax + 15) // 16 * 16 + 16 + 32 + 16)],
+        unwind=8, timeout=timeout, tier=tier,
+        desc='iteration_allocator<%d>::%s from an arbitrary valid state' % (n, IT_OPS[op]),
+        bounds='block size %d..%d (symbolic, any remainder mod N), block at 4 residues mod 64, every top symbolic, size <= %d, alignment 1..64' % (n, bmax, smax))
+for n in (1, 2, 3, 5):
+    for op in range(1, 9):
+        it_jobs(n, op, 'baseline' if n == 2 or op not in (2, 3) else 'release', 'quick')
+for n in (1, 2, 3, 4, 5):
+    for op in range(1, 9):
+        it_jobs(n, op, 'release', 'thorough', bmax=96, smax=40, timeout=1200)
+        it_jobs(n, op, 'debug8', 'thorough', bmax=96, smax=24, timeout=1800)
+        if n in (2, 4): it_jobs(n, op, 'baseline', 'thorough', timeout=1200)
